@@ -189,6 +189,9 @@ func blockFailSig(res Result) string {
 		}
 		return "C07/block-panicked"
 	}
+	if strings.Contains(res.Err, "after 10000-01-01") || strings.Contains(res.Err, "timestamp") && strings.Contains(res.Err, "encod") {
+		return "C07/block-failed/end-time-beyond-year-9999"
+	}
 	return "C07/block-failed"
 }
 
@@ -249,6 +252,9 @@ func RunC07A(t *testing.T) {
 			sig := "C07/finalize-block-failed"
 			if strings.Contains(a.Failed, "overflow") {
 				sig = "C07/block-panicked/int-overflow"
+			}
+			if strings.Contains(a.Failed, "after 10000-01-01") {
+				sig = "C07/block-failed/end-time-beyond-year-9999"
 			}
 			v := viol(sig, "the application failed to process a block: %s", a.Failed)
 			if f, ok := IsKnown(prop, v.Sig); ok {
